@@ -21,6 +21,16 @@ Streams
      the head, one div per written language, one p with begin/end per caption (per run for legacy/single), Coq ok_refs
      on ids / style= (head AND body) / region=.
   H  histories: one writer object, 2-4 write() calls on sets with different style-id vocabularies.
+  K  (wave 7) the document skeleton: the bs4 tree every writer of stream D hands to prettify() is captured (a spy around
+     BeautifulSoup.prettify), cut into the skeleton tt / head / styling / style* / layout / region* / body / div* / p*
+     (attribute dictionaries in insertion order, the <p> strings) and rendered by the Coq model DfxpSkel.dfxp_document
+     (request 714): the string must EQUAL the writer's output byte for byte. The Coq document machine (request 715:
+     SpecXmlDoc.doc_parse + ns_ok + root tt in the TTML namespace) must accept every such output, count as many elements
+     as expat, and agree with expat on damaged variants of it (second root, text outside the root, white space before
+     the declaration, missing end tag, undeclared tts prefix, no declaration, other quotes / standalone); and on 200
+     (3 000) generated, mostly malformed XML declarations (order, quotes, Eq, S, version / encoding / standalone values).
+     The <style> dictionaries of the captured tree (insertion order) == DfxpSkelHead.style_elems of the set's style table
+     (request 716; main and legacy writer).
 Every R / D / H violation record carries the pickled caption set(s): `./check C07 --replay` re-runs it.
 """
 import re
@@ -39,6 +49,9 @@ from pycaption import (DFXPWriter, DFXPReader, SRTReader, WebVTTReader, SAMIRead
                        SCCWriter, CaptionSet, CaptionList, Caption, CaptionNode)
 from pycaption.dfxp import SinglePositioningDFXPWriter, LegacyDFXPWriter
 from pycaption.dfxp.base import RegionCreator
+import bs4
+from bs4 import BeautifulSoup
+from bs4.element import Tag, NavigableString
 from pycaption.geometry import Layout, Point, Size, Stretch, Padding, Alignment, UnitEnum, HorizontalAlignmentEnum, \
     VerticalAlignmentEnum
 
@@ -452,6 +465,238 @@ def layout_pool(absolute=False):
 
 class Recorder:
     seen = None
+
+
+# ---- stream K: the tree handed to prettify -------------------------------------------------------------------------
+class TreeSpy:
+    last = None
+
+
+_orig_prettify = BeautifulSoup.prettify
+
+
+def _spy_prettify(self, *a, **k):
+    if isinstance(self, BeautifulSoup):
+        try:
+            TreeSpy.last = skeleton_of_tree(self)
+        except Exception as e:                      # never disturb the writer
+            TreeSpy.last = ("error", repr(e))
+    return _orig_prettify(self, *a, **k)
+
+
+BeautifulSoup.prettify = _spy_prettify
+
+
+def _kids(tag):
+    """element children; None when there is a non-blank string among the children"""
+    out = []
+    for c in tag.contents:
+        if isinstance(c, Tag):
+            out.append(c)
+        elif isinstance(c, NavigableString) and type(c) is NavigableString:
+            if c.strip():
+                return None
+        else:
+            return None
+    return out
+
+
+def _attrs(tag):
+    return [[str(k), str(v)] for k, v in tag.attrs.items()]
+
+
+def skeleton_of_tree(soup):
+    """the skeleton the model renders, or ("no-skeleton", why)"""
+    top = _kids(soup)
+    if top is None or [t.name for t in top] != ["tt"]:
+        return ("no-skeleton", "root")
+    tt = top[0]
+    k = _kids(tt)
+    if k is None or [t.name for t in k] != ["head", "body"] or k[0].attrs or k[1].attrs:
+        return ("no-skeleton", "tt children")
+    head, body = k
+    hk = _kids(head)
+    if hk is None or [t.name for t in hk] != ["styling", "layout"] or hk[0].attrs or hk[1].attrs:
+        return ("no-skeleton", "head children")
+    sts, rgs = _kids(hk[0]), _kids(hk[1])
+    if sts is None or rgs is None or any(t.name != "style" or t.contents for t in sts) or any(t.name != "region" or t.contents for t in rgs):
+        return ("no-skeleton", "styling / layout children")
+    divs = _kids(body)
+    if divs is None or any(t.name != "div" for t in divs):
+        return ("no-skeleton", "body children")
+    dvs = []
+    for dv in divs:
+        ps = _kids(dv)
+        if ps is None or any(t.name != "p" for t in ps):
+            return ("no-skeleton", "div children")
+        pl = []
+        for p_ in ps:
+            if len(p_.contents) != 1 or type(p_.contents[0]) is not NavigableString:
+                return ("no-skeleton", "p children")
+            pl.append([_attrs(p_), str(p_.contents[0])])
+        dvs.append([_attrs(dv), pl])
+    return ("ok", [_attrs(tt), [_attrs(t) for t in sts], [_attrs(t) for t in rgs], dvs])
+
+
+TTS_DECL = ' xmlns:tts="http://www.w3.org/ns/ttml#styling"'
+
+
+def damaged_variants(out):
+    """(label, text, expected verdict of the spec or None = whatever expat says)"""
+    v = [("second_root", out + "<x/>"), ("text_after_root", out + "x"), ("text_before_declaration", "x" + out),
+         ("white_space_before_declaration", "\n" + out), ("end_tag_missing", out.rstrip()[:-len("</tt>")]),
+         ("no_declaration", out.split("\n", 1)[1] if out.startswith("<?xml") else out),
+         ("other_declaration", out.replace('<?xml version="1.0" encoding="utf-8"?>', "<?xml version='1.0'  encoding = \"UTF-8\" standalone='yes' ?>", 1)),
+         ("declaration_without_version", out.replace(' version="1.0"', "", 1)),
+         ("reference_after_root", out + "&#32;")]
+    if TTS_DECL in out:
+        v.append(("tts_prefix_undeclared", out.replace(TTS_DECL, "", 1)))
+    return v
+
+
+def expat_accepts(text):
+    try:
+        root = ET.fromstring(text.encode("utf-8"))
+        return True, sum(1 for _ in root.iter())
+    except ET.ParseError:
+        return False, 0
+
+
+def rand_declaration_doc(rng):
+    """a document with a random, often malformed, XML declaration"""
+    def q(v):
+        c = rng.choice(['"', "'"])
+        return c + v + c
+    if rng.random() < 0.3:                  # a well-formed one, spelled freely
+        s = "<?xml" + rng.choice([" ", "\n", "  "]) + "version" + rng.choice(["=", " =", "= ", " = ", "\t=\n"]) + q(rng.choice(["1.0", "1.1", "1.23"]))
+        if rng.random() < 0.6:
+            s += rng.choice([" ", "\t"]) + "encoding" + rng.choice(["=", " = "]) + q(rng.choice(["utf-8", "UTF-8", "utf_8", "U.8-x"]))
+        if rng.random() < 0.4:
+            s += rng.choice([" ", "\n "]) + "standalone" + rng.choice(["=", " ="]) + q(rng.choice(["yes", "no"]))
+        return s + rng.choice(["", " ", "\n"]) + "?>" + rng.choice(["<a/>", "\n<a/>\n", " <a b='1'>x</a>"])
+    items = [("version", rng.choice(["1.0", "1.0", "1.0", "1.1", "1.", "2.0", "1.00", "1.0 ", "", " 1.0", "1,0"]))]
+    if rng.random() < 0.6:
+        items.append(("encoding", rng.choice(["utf-8", "UTF-8", "utf_8", "-utf8", "8utf", "utf 8", ""])))
+    if rng.random() < 0.4:
+        items.append(("standalone", rng.choice(["yes", "no", "maybe", "YES", ""])))
+    if rng.random() < 0.15:
+        rng.shuffle(items)
+    if rng.random() < 0.1:
+        items = items[1:]
+    if rng.random() < 0.08:
+        items.append(("version", "1.0"))
+    s = "<?xml"
+    for k, v in items:
+        s += rng.choice([" ", " ", "  ", "\n", ""] if rng.random() < 0.2 else [" "]) + k + rng.choice(["=", " =", "= ", " = ", "\t=\n"]) \
+            + (q(v) if rng.random() < 0.95 else '"' + v + "'")
+    s += rng.choice(["", "", " ", "\n"]) + rng.choice(["?>", "?>", "?>", "? >", ">", "?"])
+    return s + rng.choice(["<a/>", "\n<a/>\n"])
+
+
+def stream_declarations(ctx, acc):
+    """the XML declaration grammar of the spec (SpecXmlDoc.xml_decl) against expat"""
+    rng = ctx.rng
+    docs = [rand_declaration_doc(rng) for _ in range(ctx.n(200, 3000))]
+    for d, r in zip(docs, oracle_batch([(715, d) for d in docs])):
+        acc.res["evaluations"] += 1
+        try:
+            ET.fromstring(d.encode("utf-8"))
+            ok = True
+        except ET.ParseError:
+            ok = False
+        except LookupError:                 # well-formed, but an encoding name Python does not know
+            ok = True
+        spec = bool(r[0])
+        m = re.search(r"""version\s*=\s*["']([^"']*)["']""", d)
+        if ok == spec:
+            acc.count("K_declarations_%s_by_expat_and_by_the_spec" % ("accepted" if ok else "refused"))
+        elif ok and m and not re.fullmatch(r"1\.[0-9]+", m.group(1)):
+            acc.count("K_declaration_version_is_not_a_VersionNum(expat does not check production 26; the spec refuses)")
+        elif ok and not d[5:6].isspace():
+            acc.count("K_declaration_is_a_processing_instruction(no white space after <?xml; the spec knows no PIs)")
+        else:
+            acc.res["disagreements"].append({"stream": "K-declaration", "input": {"document": d}, "what": "XML declaration: expat %s, "
+                                             "SpecXmlDoc.doc_parse %s" % ("accepts" if ok else "refuses", "accepts" if spec else "refuses")})
+
+
+def stream_skeleton(ctx, acc, docs):
+    """docs: list of (inp, rp, out, captured skeleton)"""
+    rng = ctx.rng
+    reqs, plan = [], []
+    for inp, rp, out, sk, table in docs:
+        if len(out) > 60000:
+            acc.count("K_document_longer_than_60000_characters(not sent)")
+            continue
+        if not xml_char_ok(out):
+            acc.count("K_document_with_non_XML_characters(outside the domain)")
+            continue
+        if sk is None or sk[0] != "ok":
+            acc.count("K_tree_is_not_the_skeleton:%s" % (sk[1] if sk else "not captured"))
+            acc.res["disagreements"].append({"stream": "K-skeleton", "input": inp, "what": "the tree handed to prettify is not the "
+                                             "skeleton tt/head/styling/layout/body/div/p of the model: %r" % (sk,)})
+            continue
+        reqs.append((714, sk[1]))
+        plan.append(("render", inp, rp, out, None))
+        if table is not None:
+            # the <style> dictionaries of the tree (insertion order) against DfxpSkelHead.style_elems of the style table
+            reqs.append((716, table))
+            plan.append(("styling", inp, rp, sk[1][1], None))
+        else:
+            acc.count("K_styling_of_single_positioning_writer(text-align removed first: not compared)")
+        reqs.append((715, out))
+        plan.append(("parse", inp, rp, out, None))
+        if rng.random() < 0.15:
+            for label, text in damaged_variants(out):
+                reqs.append((715, text))
+                plan.append(("damaged", inp, rp, text, label))
+    for (kind, inp, rp, text, label), r in zip(plan, oracle_batch(reqs)):
+        acc.res["evaluations"] += 1
+        if kind == "styling":
+            if r == text:
+                acc.count("K_styling_sections_of_the_tree_equal_the_model(DfxpSkelHead.style_elems)")
+                acc.count("K_style_elements_in_those", len(text))
+            else:
+                acc.res["disagreements"].append(dict({"stream": "K-styling", "input": inp, "what": "the <style> attribute dictionaries of the "
+                                                 "tree (insertion order) differ from DfxpSkelHead.style_elems of the style table",
+                                                 "model": r, "impl": text}, **rp))
+            continue
+        if kind == "render":
+            if r == text:
+                acc.count("K_documents_rendered_by_the_model_equal_the_output_byte_for_byte")
+                acc.count("K_p_elements_rendered", text.count("<p "))
+                acc.count("K_empty_element_tags_rendered", text.count("/>") - text.count("<br/>"))
+                acc.res["nontrivial"].add(("K", inp["writer"], text))
+            else:
+                i = next((j for j, (a, b) in enumerate(zip(r, text)) if a != b), min(len(r), len(text))) if isinstance(r, str) else 0
+                acc.res["disagreements"].append(dict({"stream": "K-render", "input": inp, "what": "DfxpSkel.dfxp_document of the tree the "
+                                                 "writer built differs from the writer's output at offset %d" % i,
+                                                 "model": (r[max(0, i - 80):i + 80] if isinstance(r, str) else r),
+                                                 "impl": text[max(0, i - 80):i + 80]}, **rp))
+        else:
+            ok, n = expat_accepts(text)
+            spec_ok = bool(r[0]) and bool(r[1])
+            if kind == "parse":
+                if not ok:
+                    # the violation itself is reported by stream D; here: the document machine must refuse it too
+                    if spec_ok:
+                        acc.res["disagreements"].append(dict({"stream": "K-parse", "input": inp, "what": "the Coq document machine accepts "
+                                                         "(doc_parse and ns_ok) an output that expat refuses", "document": text[:3000]}, **rp))
+                    else:
+                        acc.count("K_outputs_refused_by_expat_and_by_the_document_machine")
+                    continue
+                if spec_ok and r[2] and r[3] == n:
+                    acc.count("K_outputs_accepted_by_the_document_machine(ns_ok, tt in TTML namespace, element count = expat)")
+                else:
+                    acc.res["disagreements"].append(dict({"stream": "K-parse", "input": inp, "what": "the Coq document machine "
+                                                     "(doc_parse, ns_ok, root_in_ns, elements) answers %r on an output expat accepts with %d elements" % (r, n),
+                                                     "document": text[:3000]}, **rp))
+            else:
+                if spec_ok == ok and (not ok or r[3] == n):
+                    acc.count("K_damaged_%s_%s_by_both" % (label, "accepted" if ok else "refused"))
+                else:
+                    acc.res["disagreements"].append({"stream": "K-damaged", "input": inp, "what": "damaged document (%s): expat %s, "
+                                                     "Coq document machine %r" % (label, "accepts" if ok else "refuses", r),
+                                                     "document": text[:3000]})
 
 
 def recording_writer(base, **kw):
@@ -970,7 +1215,7 @@ def judge_document(acc, cs, wname, kw, force, out, inp, rp, src=None, label=""):
     return True
 
 
-def stream_documents(ctx, acc):
+def stream_documents(ctx, acc, kdocs=None):
     rng = ctx.rng
     sources = [("api", lambda: api_set(ctx)) for _ in range(ctx.n(150, 3000))] + reader_sets(ctx)
     # fixed shapes for "one p per RUN": label 1-5 s next to a line 1-3 s; equal end, different start; runs of 1-4
@@ -989,6 +1234,28 @@ def stream_documents(ctx, acc):
         {"en": CaptionList([Caption(S, 2 * S, [CaptionNode.create_text("t")], style={"class": "a&b"})])},
         styles={"a&b": {"class": "zz", "color": "white"}, "b": {"class": "c", "color": "red"}, "c": {"class": "c", "italics": True},
                 "d": {"class": "e", "font-size": "1c"}, "e": {}})))
+    # wave 7 (stream K): what prettify strips from a <p> string and how it sorts - Unicode white space at both ends of a
+    # caption, captions made of white space only, style values / ids / language codes that sort around ':' '_' and capitals
+    def edge_ws():
+        ws = ["\u2003", "\xa0", "\u3000", "\x85", "\t", " ", "\u2028", "\u200a", "\u1680", "\u205f", "\u202f"]
+        caps = []
+        for i in range(8):
+            a = "".join(rng.choice(ws) for _ in range(rng.randint(0, 3)))
+            b = "".join(rng.choice(ws) for _ in range(rng.randint(0, 3)))
+            body = rng.choice(["x", "a & b", "", "]]>", "<i>", "x" + rng.choice(ws) + "y"])
+            nodes = [CaptionNode.create_text(a + body + b)]
+            if rng.random() < 0.4:
+                nodes = [CaptionNode.create_text(a), CaptionNode.create_style(True, {"italics": True}), CaptionNode.create_text(body),
+                         CaptionNode.create_style(False, {"italics": True}), CaptionNode.create_text(b)]
+            if rng.random() < 0.3:
+                nodes.append(CaptionNode.create_break())
+                nodes.append(CaptionNode.create_text(b))
+            caps.append(Caption((i + 1) * S, (i + 2) * S, nodes, style={"class": rng.choice(["Z", "_a", "a:b", "z"])}))
+        return CaptionSet({rng.choice(["en", "x'y\"z", "A", "_"]): CaptionList(caps)},
+                          styles={"Z": {"color": "white", "font-family": "a'b"}, "_a": {"font-size": "1c", "text-align": "left"},
+                                  "a:b": {"class": "Z", "italics": True}, "z": {"display-align": "after", "class": "_a"}})
+    for _ in range(ctx.n(6, 60)):
+        sources.append(("api-edge-white-space", edge_ws))
     for src, mk in sources:
         cs = impl.call(mk)
         if not isinstance(cs, Ok):
@@ -1008,7 +1275,9 @@ def stream_documents(ctx, acc):
             langs = cs.get_languages()
             force = rng.choice([None, None, "", rng.choice(langs), "zz"])
             w = WRITERS[wname](**kw)
+            TreeSpy.last = None
             out = impl.call(lambda: w.write(cs, force=force) if force is not None else w.write(cs))
+            sk = TreeSpy.last
             acc.res["evaluations"] += 1
             inp = {"source": src, "writer": wname, "options": {k: repr(v) for k, v in kw.items()}, "force": force,
                    "set": gens.describe_capset(cs), "styles": repr(cs.get_styles())[:500]}
@@ -1030,6 +1299,8 @@ def stream_documents(ctx, acc):
                 acc.count("D_scc_generated_style_nodes", sum(1 for n in nodes if n.type_ == CaptionNode.STYLE))
                 acc.count("D_scc_generated_captions_with_several_layouts",
                           sum(1 for l in langs for c in cs.get_captions(l) if len({id(n.layout_info) for n in c.nodes}) > 1))
+            if kdocs is not None:
+                kdocs.append((inp, rp, out.v, sk, [[sid, content_pairs(st)] for sid, st in cs.get_styles()] if wname != "single" else None))
             if judge_document(acc, cs, wname, kw, force, out.v, inp, rp):
                 acc.res["nontrivial"].add(("D", src, wname, out.v))
                 acc.count("D_ok_" + src)
@@ -1112,13 +1383,18 @@ def run(ctx):
     stream_values(ctx, acc)
     stream_payload(ctx, acc)
     stream_regions(ctx, acc)
-    stream_documents(ctx, acc)
+    kdocs = []
+    stream_documents(ctx, acc, kdocs)
+    stream_skeleton(ctx, acc, kdocs)
+    stream_declarations(ctx, acc)
     stream_histories(ctx, acc)
     res = acc.res
+    res["streams"] = 6
     res["samples"] = [x[1] for x in list(res["nontrivial"]) if x[0] == "S"][:5]
     res["rule"] = ("S: attribute values containing one of & < > \" '; P: distinct (writer, node lists) whose payload is accepted by "
                    "both parsers with the model's events; R: distinct (ids, references) structures equal to the model up to "
-                   "renaming; D / H: distinct documents that pass both strict parsers and every document-level clause")
+                   "renaming; D / H: distinct documents that pass both strict parsers and every document-level clause; K: distinct documents "
+                   "the Coq renderer reproduces byte for byte from the captured tree")
     res["clauses"] = {
         "theorem": ["every attribute value, serialized by the output formatter or by quoteattr, parses back to itself under the "
                     "strict attribute-value grammar (all strings of XML Chars)",
@@ -1129,9 +1405,19 @@ def run(ctx):
                     "whole traversal of DFXPWriter (DfxpDoc.summarize) and of LegacyDFXPWriter (legacy_summarize): ok_refs = 0 on "
                     "their domains (ids and references only: _partial)",
                     "span / legacy attribute dictionaries have valid, pairwise distinct names",
-                    "SinglePositioningDFXPWriter: set transformation modelled; one region; ok_refs = 0 on an input-level domain (_partial)"],
-        "correspondence_only": ["whole-document well-formedness, namespaces, head / body, div / p counts, begin / end (expat and lxml, "
-                                "strict, no recovery)", "bs4 tree building and prettify indentation",
+                    "SinglePositioningDFXPWriter: set transformation modelled; one region; ok_refs = 0 on an input-level domain (_partial)",
+                    "WHOLE DOCUMENT (wave 7): the rendered document string (DfxpSkel.dfxp_document: prolog, tt / head / styling / layout / "
+                    "body / div / p, indentation, empty-element tags, sorted escaped attributes, stripped payloads) is accepted by the "
+                    "specification's document machine (XML declaration, one root element, white space around it) for every tree with "
+                    "valid attribute dictionaries and well-formed payloads; composed with the payload theorem from caption nodes; the "
+                    "first event is the root tt with xmlns = TTML namespace and xml:lang = the given language code",
+                    "the content machine is compositional (accepted content is accepted in any element context); attribute validity is "
+                    "invariant under bs4's sorting"],
+        "correspondence_only": ["that the tree handed to prettify carries exactly the attribute dictionaries / payloads of the models "
+                                "(stream K renders the captured tree with the Coq renderer: equal to the output byte for byte)",
+                                "namespace well-formedness of the whole document (Coq ns_ok executed on every output, agrees with expat; "
+                                "not proved for all documents), div / p counts, begin / end (expat and lxml, strict, no recovery)",
+                                "bs4 tree building (which attributes reach which tag)",
                                 "the spec parsers themselves are validated against lxml (accept/reject and decoded events) on writer "
                                 "outputs, on malformed literals and on malformed content",
                                 "that cleanup_regions / get_positioning_info equal the model's filter / lookup (stream R)",
